@@ -93,6 +93,28 @@ def build(desc, mode="fmtstr"):
                 elif v:
                     f = getattr(fmtfuncs, k)(f)
             parts.append(f)
+        elif mode == "funcs_extra":
+            # one fmtfuncs call per run: the first attribute names the function, the others ride along as extra positional
+            # names and keyword arguments ( red('ab', 'bold', bg='blue') )
+            items = [(k, a[k]) for k in sorted(a) if a[k]]
+            kw = {k: v for k, v in a.items() if k in STYLE_SET and not v}
+            extra = []
+            for i, (k, v) in enumerate(items[1:]):
+                name = FG_NAME[v] if k == "fg" else "on_" + BG_NAME[v] if k == "bg" else k
+                if i % 2 == 0:
+                    extra.append(name)
+                elif k == "fg":
+                    kw["fg"] = FG_NAME[v] if len(t) % 2 else v
+                elif k == "bg":
+                    kw["bg"] = BG_NAME[v] if len(t) % 2 else v
+                else:
+                    kw[k] = True
+            if items:
+                k, v = items[0]
+                fn = getattr(fmtfuncs, FG_NAME[v] if k == "fg" else "on_" + BG_NAME[v] if k == "bg" else k)
+            else:
+                fn = fmtfuncs.plain
+            parts.append(fn(t, *extra, **kw))
         elif mode == "names":
             args = []
             kw = {}
@@ -112,6 +134,21 @@ def build(desc, mode="fmtstr"):
     for p in parts:
         out = out + p
     return out
+
+
+def apply_layer(f, outer, how=0):
+    """formatting applied on top of an existing (possibly multi-run) FmtStr through the public constructors"""
+    from curtsies.formatstring import fmtstr
+    from curtsies import fmtfuncs
+
+    names = [FG_NAME[v] if k == "fg" else "on_" + BG_NAME[v] if k == "bg" else k for k, v in sorted(outer.items()) if v]
+    if how % 3 == 0:
+        for n in names:
+            f = getattr(fmtfuncs, n)(f)
+        return f if names else fmtfuncs.plain(f)
+    if how % 3 == 1:
+        return fmtstr(f, *names)
+    return fmtstr(f, **{k: v for k, v in outer.items() if v})
 
 
 def build_plainmix(desc):
